@@ -270,6 +270,9 @@ func (a *ACM) ParseACMFlags() *ACMFlags {
 
 func LookupACMSize(header []byte) (int64, error) {
 	var acmSize uint32
+	if len(header) < 32 {
+		return 0, fmt.Errorf("ACM header is too short: %d bytes, need at least 32", len(header))
+	}
 	buf := bytes.NewReader(header[:32])
 	_, err := buf.Seek(ACMSizeOffset, io.SeekStart)
 	if err != nil {
